@@ -157,6 +157,8 @@ def check(db, rep):
     from rules import C09
     C09.priority_rule(db, r6)
     _maxpart_definedness(db, rep)
+    r8 = rep.rule('r8', 'RENUMBER-FAITHFUL: the renumbering that ends an extraction keeps the referent of every mention and never gives a dangling mention a meaning (ResetAliases interpreted on schemas with gaps)', 1)
+    renumber_evaluated(db, r8)
 
 
 def _maxpart_definedness(db, rep):
@@ -200,3 +202,109 @@ def _maxpart_definedness(db, rep):
         r7.violation('IsCorrectlyDefined', '%s:%d' % (f.file, f.line), bad + ': the extracted schema then mentions names it does not contain')
     else:
         r7.ok('IsCorrectlyDefined', 'admissibility agrees with the definition on %d (kind, exists, inputs selected) cases' % cases, '%s:%d' % (f.file, f.line))
+
+
+# ---------------------------------------------------------------------------------------------- r8: renumbering never gives a dangling mention a meaning
+def renumber_evaluated(db, rule):
+    """RSCore::ResetAliases (the renumbering both extraction operations end with) interpreted on small schemas whose definitions are
+    sequences of mentioned names, some of which resolve to no constituent (left behind by an erasure). Supplied: the name registry
+    (first free number of the letter; reserve / free as the code asks), the list, the application of a translator to all mentions.
+    Required: a mention that resolved to a constituent now spells that constituent's new alias, and a mention that resolved to nothing
+    still resolves to nothing - otherwise an INCORRECT definition becomes VERIFIED with a different meaning."""
+    from engine.evalmini import Interp, Obj, OutOfFragment, NOT_HANDLED
+    f = db.fn(S + 'RSCore::ResetAliases', required=False)
+    if f is None:
+        rule.broken('anchor vanished: RSCore::ResetAliases')
+        return
+
+    def scenario(csts):
+        recs = {i + 1: Obj(uid=i + 1, alias=a.encode(), type=ord(a[0]), definition=[m.encode() for m in ms]) for i, (a, ms) in enumerate(csts)}
+        old_alias = {u: bytes(r['alias']) for u, r in recs.items()}
+        resolve = {bytes(r['alias']): u for u, r in recs.items()}
+        before = {u: [resolve.get(bytes(m)) for m in r['definition']] for u, r in recs.items()}
+        taken = set()
+
+        def on_call(it, fn, n, env):
+            cs = n.get('cs') or ''
+            last = cs.split('::')[-1]
+            Sx = fn.stmts
+            ev = lambda sid: it.eval(fn, Sx[sid], env)
+            a = lambda: [ev(x) for x in n.get('args', [])]
+            if last == 'List' and cs.startswith(S):
+                return sorted(recs)
+            if last == 'GetRS':
+                return recs[a()[0]]
+            if cs == S + 'IdentityManager::Clear':
+                taken.clear()
+                return None
+            if last == 'RegisterEntity':
+                uid, typ = a()
+                k_ = 1
+                while ('%s%d' % (chr(typ), k_)).encode() in taken:
+                    k_ += 1
+                al = ('%s%d' % (chr(typ), k_)).encode()
+                taken.add(al)
+                return Obj(uid=uid, alias=al)
+            if last in ('ReserveAlias', 'AddUID') and a():
+                taken.add(bytes(a()[-1]))
+                return None
+            if last in ('FreeAlias', 'FreeUID') and a():
+                taken.discard(bytes(a()[-1]))
+                return None
+            if last == 'CreateTranslator':
+                return Obj(__kind__='translator', m={bytes(k_): bytes(v_) for k_, v_ in a()[0].items()})
+            if last == 'SubstitueAliases':
+                if 'Schema' in cs:
+                    m = a()[0]['m']
+                    for r in recs.values():
+                        r['alias'] = m.get(bytes(r['alias']), bytes(r['alias']))
+                        r['definition'] = [m.get(bytes(x), bytes(x)) for x in r['definition']]
+                return None
+            if last == 'ExtractUGlobals' and a():
+                return set(bytes(x) for x in a()[0]) if isinstance(a()[0], list) else set()
+            if last == 'FindAlias':
+                nm = bytes(a()[-1])
+                hit = [u for u, r in recs.items() if bytes(r['alias']) == nm]
+                return hit[0] if hit else None
+            if cs.endswith('optional::has_value'):
+                return ev(n['obj']) is not None
+            return NOT_HANDLED
+        it = Interp(db, on_call=on_call, max_steps=400000)
+
+        def on_range(it_, v):
+            if isinstance(v, Obj) and v.get('__cls__') == 'schema':
+                return list(recs.values())
+            return v
+        it.on_range = on_range
+        it.call(f, [], Obj(__cls__=S + 'RSCore', identifiers=Obj(), schema=Obj(__cls__='schema'), thesaurus=Obj(), cstList=Obj()))
+        new_alias = {u: bytes(r['alias']) for u, r in recs.items()}
+        if len(set(new_alias.values())) != len(new_alias):
+            return 'renumbering %s gives two constituents the same alias: %s' % (csts, sorted(x.decode() for x in new_alias.values()))
+        now = {v: u for u, v in new_alias.items()}
+        for u, r in recs.items():
+            for m, was in zip(r['definition'], before[u]):
+                got = now.get(bytes(m))
+                if got != was:
+                    return 'renumbering %s: in the definition of %s (now %s) a mention that %s now reads %s, which %s' % (
+                        [(a_, ms) for a_, ms in csts], old_alias[u].decode(), new_alias[u].decode(),
+                        ('denoted ' + old_alias[was].decode()) if was else 'denoted no constituent (its constituent had been erased)', bytes(m).decode(),
+                        ('denotes ' + old_alias[got].decode() + ' (now ' + new_alias[got].decode() + ')') if got else 'denotes nothing')
+        return None
+    cases = [
+        [('X1', []), ('X3', []), ('D1', ['X2', 'X3'])],                  # X2 was erased; X3 is renumbered to X2
+        [('X1', []), ('X2', []), ('D1', ['X1', 'X2'])],
+        [('X2', []), ('D3', ['X2', 'X1']), ('D5', ['D3', 'D1'])],
+        [('X1', []), ('D2', ['X1']), ('D4', ['D2', 'D3', 'D1'])],
+        [('C1', []), ('X5', ['C2']), ('C3', ['X5'])],
+    ]
+    bad = None
+    try:
+        for c in cases:
+            bad = bad or scenario(c)
+    except OutOfFragment as e:
+        rule.broken('RSCore::ResetAliases outside the evaluable fragment: %s' % e)
+        return
+    if bad:
+        rule.violation('ResetAliases:evaluated', '%s:%d' % (f.file, f.line), bad)
+    else:
+        rule.ok('ResetAliases:evaluated', '%d schemas with gaps and dangling mentions: every mention keeps its referent, a dangling one stays dangling' % len(cases), '%s:%d' % (f.file, f.line))
